@@ -350,6 +350,11 @@ class Emitter:
             raise
 
     @staticmethod
+    def is_pointer_type(t):
+        q = (t.get('desugaredQualType') or t.get('qualType', '')).strip()
+        return q.endswith('*') or q.endswith('* const')
+
+    @staticmethod
     def is_ref(t):
         q = (t.get('desugaredQualType') or t.get('qualType', '')).strip()
         return q.endswith('&')
@@ -1162,6 +1167,10 @@ class Emitter:
                 return '(%s %s %s)' % (self.sub(a), op, self.guarded(b))
             if op == ',':
                 return '(%s, %s)' % (self.sub(a), self.sub(b))
+            if op in ('<', '>', '<=', '>=') and self.is_pointer_type(a['type']) and self.is_pointer_type(b['type']):
+                # relational comparison of pointers into possibly different objects: the library relies on the flat
+                # address space of the target, i.e. on comparing the addresses as integers
+                return '((unsigned long)%s %s (unsigned long)%s)' % (self.sub(a), op, self.sub(b))
             if op == '=' and self.rec_of_type_safe(e['type']) is not None and self.strip(b)['kind'] == 'InitListExpr':
                 return '(%s = %s)' % (self.sub(a), self.sub(b))
             return '(%s %s %s)' % (self.sub(a), op, self.sub(b))
